@@ -139,6 +139,9 @@ def gen_config(rng, W, variant=None, allow_empty=True, T=3, idx=0, **force):
         sigma=rng.choice([0.0, 0.5, 1.0, 2.0, 1.0]),
         lr=rng.choice([0.5, 0.25]),
         init=[[[float((r + 1) * (j + 1)) for j in range(dims[0])], [float(-(r + 2) * (j + 1)) for j in range(dims[1])]] for r in range(W)],
+        # `optimizer.step(closure)`: the DP optimizer evaluates the closure once, BEFORE clipping/noising, and the
+        # wrapped optimizer must not re-evaluate it (it would overwrite the released gradient with the raw one)
+        closure=(variant in ("flat", "perlayer_simple") and rng.random() < 0.35),
     )
     cfg.update(force)
     return cfg
